@@ -267,6 +267,21 @@ def reorderGlyphs(font: ttLib.TTFont, new_glyph_order: List[str]):
     if not_loaded:
         raise ValueError(f"Everything should be loaded, following aren't: {not_loaded}")
 
+    # CFF2 charstrings are named after the font's glyph order when they are
+    # (lazily) loaded: load them before that order changes.
+    for tag in ["CFF ", "CFF2"]:
+        if tag in font:
+            font[tag].cff.topDictIndex[0].CharStrings
+
+    # Without an explicit advance mapping, HVAR/VVAR delta sets are indexed by
+    # glyph ID: make the mapping explicit (keyed by glyph name) so that every
+    # glyph keeps its deltas under the new order.
+    for tag, attr in (("HVAR", "AdvWidthMap"), ("VVAR", "AdvHeightMap")):
+        if tag in font and getattr(font[tag].table, attr, None) is None:
+            varIdxMap = ot.VarIdxMap()
+            varIdxMap.mapping = {g: i for i, g in enumerate(old_glyph_order)}
+            setattr(font[tag].table, attr, varIdxMap)
+
     font.setGlyphOrder(new_glyph_order)
 
     coverage_containers = {"GDEF", "GPOS", "GSUB", "MATH"}
